@@ -16,7 +16,8 @@ CONSTANT MaxReaders
 
 Kinds == {"V1", "V2", "SE", "MX", "MS", "EM", "TR", "UN"}
 
-F(k, e, m, n, c, p) == [k |-> k, errs |-> e, mixed |-> m, nodes |-> n, consumed |-> c, opanic |-> p]
+F(k, e, m, n, c, p) == [k |-> k, errs |-> e, mixed |-> m, nodes |-> n, consumed |-> c, opanic |-> p,
+                        blank |-> (k = "EM")]
 Facts(k) ==
   CASE k = "V1" -> F(k, 0, 0, 1, TRUE, FALSE)    \* valid, one node
     [] k = "V2" -> F(k, 0, 0, 2, TRUE, FALSE)    \* valid, two nodes
